@@ -92,6 +92,31 @@ def expected(data):
 
 def check_chunks(impl, v, chunks, case, fresh=True):
     """feed chunks; compare every intermediate result with the reference on the bytes fed so far"""
+    for _ in iter_chunks(impl, v, chunks, case, fresh):
+        pass
+
+
+def check_interleaved(impl, chunks, case):
+    """several validators of one implementation alive at once, fed alternately (connections of one process do that): each one judges its own stream.
+    The second one is created only after the first has consumed a chunk; its stream is the first one's octets shifted by one, so both are
+    mid code point at different places"""
+    total = b"".join(chunks)
+    other = [c[1:] + c[:1] for c in chunks if c] + [b"\xe2\x82", b"\xac", b"\xf0\x9f", b"\x98\x80z"]
+    a = impl.new()
+    ga = iter_chunks(impl, a, chunks, dict(case, interleaved="first"), True)
+    next(ga, None)
+    b = impl.new()
+    gb = iter_chunks(impl, b, other, dict(case, interleaved="second"), True)
+    live = [ga, gb]
+    while live:
+        for g in list(live):
+            try:
+                next(g)
+            except StopIteration:
+                live.remove(g)
+
+
+def iter_chunks(impl, v, chunks, case, fresh=True):
     if not fresh:
         v.reset()
     total = b"".join(chunks)
@@ -120,6 +145,7 @@ def check_chunks(impl, v, chunks, case, fresh=True):
             if tot != bad or cur != bad - before:
                 raise Violation("C09|%s|index-on-reject" % impl.name, "current=%r total=%r, reference offending byte at %d (chunk start %d): %r" % (cur, tot, bad, before, case), case)
             return
+        yield fed
 
 
 def selftest_reference():
@@ -259,6 +285,7 @@ def check_gen(case, impls):
     chunks = chunks_of(case)
     for impl in impls:
         check_chunks(impl, impl.new(), chunks, case)
+        check_interleaved(impl, chunks, case)
         if impl.name.startswith("native-impl"):
             # direct lib call at a drawn buffer alignment (one shot)
             v = impl.new()
